@@ -46,6 +46,16 @@ pub fn prog_label(p: &ProgSpec) -> String {
     }
 }
 
+/// Label of one output for signatures: corpus programs by name, generated programs by the
+/// operator labels on the output's dependency slice.
+pub fn out_label(p: &ProgSpec, o: &OutSpec) -> String {
+    if p.is_corpus() {
+        format!("{}/{}", p.name, o.name)
+    } else {
+        format!("gen[{}]", o.slice.join(","))
+    }
+}
+
 fn per_key(items: &[Value]) -> BTreeMap<String, Vec<String>> {
     let mut m: BTreeMap<String, Vec<String>> = BTreeMap::new();
     for it in items {
@@ -54,9 +64,26 @@ fn per_key(items: &[Value]) -> BTreeMap<String, Vec<String>> {
     m
 }
 
+/// Does the output still emit (stream kinds) / change (snapshots) in every one of the last 8
+/// input-free ticks? Then it has no final content at all: it depends on how many (empty) ticks
+/// the runtime happens to run.
+fn never_settles(o: &OutSpec, r: &RunResult) -> bool {
+    if r.ticks < 10 {
+        return false;
+    }
+    match o.kind {
+        OutKind::Seq | OutKind::Bag | OutKind::KeyedSeq => (r.ticks - 8..r.ticks).all(|t| !r.tick_items(&o.name, t).is_empty()),
+        OutKind::Final => (r.ticks - 8..r.ticks).all(|t| multiset(&r.tick_items(&o.name, t)) != multiset(&r.tick_items(&o.name, t - 1))),
+        _ => false,
+    }
+}
+
 /// Canonical eventual content of an output under one run, according to its kind.
 /// Err(reason) = the run cannot be judged (not quiescent / not settled).
 pub fn eventual(o: &OutSpec, r: &RunResult) -> Result<Value, String> {
+    if never_settles(o, r) {
+        return Err("never-settles".into());
+    }
     match o.kind {
         OutKind::Seq => {
             if !r.quiescent {
@@ -124,8 +151,25 @@ pub fn c28(case: &Case, res: &[RunResult], obs: &mut Obs) -> Result<(), Fail> {
         if o.kind.per_tick() {
             continue;
         }
+        let unsettled = |i: usize, r: &RunResult| {
+            Fail::new(
+                format!("c28/{}:{:?}/never-settles", out_label(p, o), o.kind),
+                format!(
+                    "output {} ({:?}) of {} keeps {} in every one of the last 8 input-free ticks ({} ticks run): it has no final content, what is observed depends on how many empty ticks the runtime runs\n last ticks: {}\n inputs per tick: {}\n source: {}",
+                    o.name,
+                    o.kind,
+                    p.name,
+                    if o.kind == OutKind::Final { "changing" } else { "emitting" },
+                    r.ticks,
+                    serde_json::json!((r.ticks.saturating_sub(4)..r.ticks).map(|t| r.tick_items(&o.name, t)).collect::<Vec<_>>()),
+                    describe(&case.schedules[i]),
+                    p.src.clone().unwrap_or_else(|| "templates/corpus.rs".into()),
+                ),
+            )
+        };
         let reference = match eventual(o, &res[0]) {
             Ok(v) => v,
+            Err(why) if why == "never-settles" => return Err(unsettled(0, &res[0])),
             Err(why) => {
                 obs.excluded(format!("reference-{why}"));
                 continue;
@@ -134,6 +178,7 @@ pub fn c28(case: &Case, res: &[RunResult], obs: &mut Obs) -> Result<(), Fail> {
         for (i, r) in res.iter().enumerate().skip(1) {
             let got = match eventual(o, r) {
                 Ok(v) => v,
+                Err(why) if why == "never-settles" => return Err(unsettled(i, r)),
                 Err(why) => {
                     obs.excluded(format!("schedule-{why}"));
                     continue;
@@ -145,7 +190,7 @@ pub fn c28(case: &Case, res: &[RunResult], obs: &mut Obs) -> Result<(), Fail> {
             }
             if got != reference {
                 return Err(Fail::new(
-                    format!("c28/{label}/{}:{:?}", o.name, o.kind),
+                    format!("c28/{}:{:?}", out_label(p, o), o.kind),
                     format!(
                         "eventual content of output {} ({:?}) of {} depends on the tick partition\n single tick : {}\n schedule {i}  : {}\n inputs per tick: {}\n source: {}",
                         o.name,
@@ -234,7 +279,7 @@ pub fn c29(refs: &Refs) -> impl Fn(&Case, &[RunResult], &mut Obs) -> Result<(), 
                 // (a) metamorphic: same as the reference presentation
                 if got != base {
                     return Err(Fail::new(
-                        format!("c29/{label}/{}:{:?}/presentation", o.name, o.kind),
+                        format!("c29/{}:{:?}/presentation", out_label(p, o), o.kind),
                         format!(
                             "{} output {} of {} differs between presentations of the same input\n reference presentation: {}\n presentation {i} ({}): {}\n inputs per tick: {}\n source: {}",
                             if o.kind == OutKind::Seq { "ordered" } else { "per-key ordered" },
@@ -264,7 +309,7 @@ pub fn c29(refs: &Refs) -> impl Fn(&Case, &[RunResult], &mut Obs) -> Result<(), 
                             _ => Value::Null,
                         };
                         return Err(Fail::new(
-                            format!("c29/{label}/{}:{:?}/reference", o.name, o.kind),
+                            format!("c29/{}:{:?}/reference", out_label(p, o), o.kind),
                             format!(
                                 "output {} of {} is not the sequence the iterator semantics define\n expected: {}\n got     : {}\n inputs per tick: {}",
                                 o.name,
@@ -405,7 +450,7 @@ pub fn c33(case: &Case, res: &[RunResult], obs: &mut Obs) -> Result<(), Fail> {
             let Some(promise) = &o.promise else { continue };
             let fail = |what: &str, t: usize, before: &Value, after: &Value| {
                 Fail::new(
-                    format!("c33/{label}/{}:{:?}/{what}", o.name, promise),
+                    format!("c33/{}:{:?}/{what}", out_label(p, o), promise),
                     format!(
                         "type promise {:?} of output {} of {} is broken between ticks {} and {}: {what}\n before: {}\n after : {}\n inputs per tick: {}\n (schedule {i})",
                         promise,
@@ -514,4 +559,227 @@ pub fn c33(case: &Case, res: &[RunResult], obs: &mut Obs) -> Result<(), Fail> {
         obs.class(c.clone());
     }
     Ok(())
+}
+
+fn per_tick_equal(kind: &OutKind, a: &[Value], b: &[Value]) -> bool {
+    match kind {
+        OutKind::PerTickSeq => a == b,
+        OutKind::PerTickBag => multiset(a) == multiset(b),
+        OutKind::PerTickKeyed => per_key(a) == per_key(b),
+        _ => multiset(a) == multiset(b),
+    }
+}
+
+/// Window schedule for tick `t` of history `s` (padded with `pad` empty ticks) and delay `d`:
+/// the batches t-d..=t (clipped at 0). Returns (schedule, index of tick t inside the window).
+pub fn window(s: &Schedule, t: usize, d: usize) -> (Schedule, usize) {
+    let lo = t.saturating_sub(d);
+    let inputs = s
+        .inputs
+        .iter()
+        .map(|inp| (lo..=t).map(|i| inp.get(i).cloned().unwrap_or_default()).collect())
+        .collect();
+    (Schedule { inputs, sing: s.sing.clone() }, t - lo)
+}
+
+/// C30 for generated tick programs (no reference model): (a) window locality -- the output of
+/// tick t equals the output of the last tick of a fresh run that only sees the batches
+/// t-d..=t (d = number of defer_tick on the path): tick-scoped state does not leak and deferred
+/// values arrive exactly d ticks later; (b) an output that is `defer_tick()` of another output
+/// shows that output's previous tick.
+/// case.schedules = [history, window(t) for every t in 0..ticks_run]; notes[i] = "window:<t>:<idx>".
+pub fn c30_gen(case: &Case, res: &[RunResult], obs: &mut Obs) -> Result<(), Fail> {
+    let p = &case.prog;
+    let label = prog_label(p);
+    if let Some((i, pm)) = first_panic(res) {
+        return Err(Fail::new(
+            format!("c30/panic/{label}/{}", squash(&pm)),
+            format!("program {} panicked under schedule {i}: {pm}\nsource: {}", p.name, p.src.clone().unwrap_or_default()),
+        ));
+    }
+    let hist = &res[0];
+    let s = &case.schedules[0];
+    // (b) shifted outputs
+    for o in &p.outputs {
+        let Some(base) = &o.shift_of else { continue };
+        for t in 0..hist.ticks {
+            let got = hist.tick_items(&o.name, t);
+            let want = if t == 0 { vec![] } else { hist.tick_items(base, t - 1) };
+            if !per_tick_equal(&o.kind, &got, &want) {
+                return Err(Fail::new(
+                    format!("c30/{}/defer-shift:{:?}", out_label(p, o), o.kind),
+                    format!(
+                        "output {} = defer_tick() of output {base} of {}: tick {t} shows {} but {base} showed {} in tick {}\n batches per tick: {}\n source: {}",
+                        o.name,
+                        p.name,
+                        serde_json::json!(got),
+                        serde_json::json!(want),
+                        t as i64 - 1,
+                        describe(s),
+                        p.src.clone().unwrap_or_default()
+                    ),
+                ));
+            }
+        }
+    }
+    // (a) window locality
+    let mut compared = 0;
+    for (i, note) in case.notes.iter().enumerate() {
+        let Some(rest) = note.strip_prefix("window:") else { continue };
+        let mut it = rest.split(':');
+        let t: usize = it.next().unwrap().parse().unwrap();
+        let idx: usize = it.next().unwrap().parse().unwrap();
+        let w = &res[i];
+        for o in &p.outputs {
+            if !o.kind.per_tick() {
+                continue;
+            }
+            let got = hist.tick_items(&o.name, t);
+            let want = w.tick_items(&o.name, idx);
+            compared += 1;
+            if !per_tick_equal(&o.kind, &got, &want) {
+                return Err(Fail::new(
+                    format!("c30/{}/window:{:?}", out_label(p, o), o.kind),
+                    format!(
+                        "tick {t} of output {} of {} depends on more than the batches of the last {} tick(s)\n in the full history : {}\n in a fresh run on the window {}: {}\n history batches per tick: {}\n source: {}",
+                        o.name,
+                        p.name,
+                        idx + 1,
+                        serde_json::json!(got),
+                        describe(&case.schedules[i]),
+                        serde_json::json!(want),
+                        describe(s),
+                        p.src.clone().unwrap_or_default()
+                    ),
+                ));
+            }
+        }
+    }
+    let sizes: Vec<usize> = (0..s.n_ticks()).map(|t| s.inputs.iter().map(|inp| inp.get(t).map(|b| b.len()).unwrap_or(0)).sum()).collect();
+    let distinct: std::collections::BTreeSet<usize> = sizes.iter().cloned().collect();
+    let rich = sizes.len() >= 3 && distinct.len() >= 2 && sizes.contains(&0);
+    obs.nontrivial(rich && p.traits.cycle_or_defer && compared > 0);
+    if rich {
+        obs.class("rich-history");
+    }
+    obs.class("generated");
+    for c in &p.traits.classes {
+        obs.class(c.clone());
+    }
+    Ok(())
+}
+
+
+/// C32: every admissible presentation (permutation / duplication / cross-key interleaving, as the
+/// weakened input type allows) of the same abstract input gives the same result, equal to the
+/// obvious reference. schedules[0] is the canonical presentation.
+pub fn c32(refs: &Refs) -> impl Fn(&Case, &[RunResult], &mut Obs) -> Result<(), Fail> + '_ {
+    move |case, res, obs| {
+        let p = &case.prog;
+        let label = prog_label(p);
+        if let Some((i, pm)) = first_panic(res) {
+            return Err(Fail::new(
+                format!("c32/panic/{label}/{}", squash(&pm)),
+                format!("program {} panicked under presentation {i}: {pm}", p.name),
+            ));
+        }
+        let prefs = refs.get(&p.name);
+        for o in &p.outputs {
+            let rf = prefs.and_then(|m| m.get(&o.name));
+            if o.kind.per_tick() {
+                let Some(Ref::PerTick(f)) = rf else { continue };
+                for (i, (s, r)) in case.schedules.iter().zip(res).enumerate() {
+                    let want = f(s, r.ticks);
+                    for t in 0..r.ticks {
+                        let got = r.tick_items(&o.name, t);
+                        if !per_tick_equal(&o.kind, &got, &want[t]) {
+                            return Err(Fail::new(
+                                format!("c32/{label}/{}:{:?}", o.name, o.kind),
+                                format!(
+                                    "per-batch result {} of {} under presentation {i} ({}) is not the reference\n expected: {}\n got     : {}\n batches: {}",
+                                    o.name,
+                                    p.name,
+                                    case.notes.get(i).cloned().unwrap_or_default(),
+                                    serde_json::json!(want[t]),
+                                    serde_json::json!(got),
+                                    describe(s)
+                                ),
+                            ));
+                        }
+                    }
+                }
+            } else {
+                let base = match eventual(o, &res[0]) {
+                    Ok(v) => v,
+                    Err(why) => {
+                        obs.excluded(format!("reference-{why}"));
+                        continue;
+                    }
+                };
+                for (i, (s, r)) in case.schedules.iter().zip(res).enumerate() {
+                    let got = match eventual(o, r) {
+                        Ok(v) => v,
+                        Err(why) => {
+                            obs.excluded(format!("schedule-{why}"));
+                            continue;
+                        }
+                    };
+                    let order_sensitive = matches!(o.kind, OutKind::Seq);
+                    if got != base && !(order_sensitive && case.notes.get(i).map(|n| n != "partition").unwrap_or(false)) {
+                        return Err(Fail::new(
+                            format!("c32/{label}/{}:{:?}/presentation", o.name, o.kind),
+                            format!(
+                                "result {} of {} differs between admissible presentations of the same input\n canonical presentation: {}\n presentation {i} ({}): {}\n inputs per tick: {}",
+                                o.name,
+                                p.name,
+                                base,
+                                case.notes.get(i).cloned().unwrap_or_default(),
+                                got,
+                                describe(s)
+                            ),
+                        ));
+                    }
+                    if let Some(Ref::Eventual(f)) = rf {
+                        let flat = flat_of(s);
+                        let want = f(&flat);
+                        let ok = match o.kind {
+                            OutKind::Seq => Value::Array(want.clone()) == got,
+                            OutKind::KeyedSeq => serde_json::json!(per_key(&want)) == got,
+                            _ => serde_json::json!(multiset(&want)) == got,
+                        };
+                        if !ok {
+                            return Err(Fail::new(
+                                format!("c32/{label}/{}:{:?}/reference", o.name, o.kind),
+                                format!(
+                                    "result {} of {} under presentation {i} ({}) is not the reference\n expected: {}\n got     : {}\n inputs per tick: {}",
+                                    o.name,
+                                    p.name,
+                                    case.notes.get(i).cloned().unwrap_or_default(),
+                                    serde_json::json!(want),
+                                    got,
+                                    describe(s)
+                                ),
+                            ));
+                        }
+                    }
+                }
+            }
+        }
+        // non-trivial: >= 3 distinct values and >= 1 duplicate in some input, >= 2 presentations
+        let rich = (0..case.schedules[0].inputs.len()).any(|i| {
+            let flat = case.schedules[0].flat(i);
+            let ms = multiset(&flat);
+            let mut d = ms.clone();
+            d.dedup();
+            d.len() >= 3 && d.len() < ms.len()
+        });
+        obs.nontrivial(rich && case.schedules.len() >= 2);
+        for n in case.notes.iter().skip(1).take(1) {
+            obs.class(format!("adversary:{}", n.split(':').next().unwrap_or("")));
+        }
+        for c in &p.traits.classes {
+            obs.class(c.clone());
+        }
+        Ok(())
+    }
 }
